@@ -66,6 +66,8 @@ const POSITIONS: &[(&str, &str)] = &[
     ("after-layer-block", "@layer base{.r{k:v}}"),
     ("after-layer-statement-and-rule", "@layer base;.r{k:v}"),
     ("after-font-face", "@font-face{k:v}"),
+    // with convert_host on: the rule leaves nothing in the normal output, it is a preceding rule all the same
+    ("after-converted-host-rule", ":host{k:v}"),
 ];
 
 fn percent_decode(s: &str) -> Option<String> {
@@ -151,17 +153,18 @@ fn check(c: &Case) -> Result<Option<Vec<(String, String)>>, String> {
     if denoted != c.path {
         return Ok(None);
     }
-    let opts = Opts { import_sign: if c.sign { Some("I".into()) } else { None }, ..Default::default() };
+    let conv = POSITIONS[c.pos].0 == "after-converted-host-rule";
+    let opts = Opts { import_sign: if c.sign { Some("I".into()) } else { None }, convert_host: conv, ..Default::default() };
     let run = css::transform("i.wxss", &c.text, &opts, 0, false).map_err(|(s, m)| crate::common::panic_err(&c.text, &opts.to_json(), &s, &m))?;
     let act: Vec<T> = nonws(&run.normal);
     let mut problems = vec![];
     let mut exp: Vec<T> = vec![];
     if !c.sign {
-        exp = passthrough(&c.text, &opts);
+        exp = passthrough(if conv { &c.text[POSITIONS[c.pos].1.len()..] } else { &c.text }, &opts);
     } else {
         if c.pos == 1 {
             exp.push(T::Comment("I z".into()));
-        } else {
+        } else if !conv {
             exp.extend(passthrough(POSITIONS[c.pos].1, &opts));
         }
         let mut closers = 0;
@@ -216,7 +219,7 @@ fn check(c: &Case) -> Result<Option<Vec<(String, String)>>, String> {
             }
         }
     }
-    if !run.low.is_empty() {
+    if !run.low.is_empty() && !conv {
         problems.push(("low-priority-output-not-empty".into(), run.low.clone()));
     }
     if c.sign {
